@@ -19,47 +19,25 @@ fn notify_fn() -> Arc<dyn Fn() + Sync + Send> {
     })
 }
 
-/// contention hooks: a blocked UI thread lets the pool task run
-fn on_block() {
-    let ran = rayon::verif_run_pending();
-    assert!(ran, "ENGINE blocked on the worker lock but no pool task is pending");
-}
-fn install_hooks() {
-    *parking_lot::VERIF_ON_BLOCK.get() = Some(on_block);
-    *parking_lot::VERIF_ON_TIMED.get() = Some(on_timed);
-}
-/// timed lock on a held mutex: the solver decides whether the run completes within the time-out
-/// outcome of a timed lock attempt on a held mutex: 0/1/2 fixed per harness instance, 3 = symbolic
-static mut TIMED_MODE: u8 = 3;
-fn on_timed() -> parking_lot::Timed {
-    let mode = unsafe { *std::ptr::addr_of!(TIMED_MODE) };
-    let k = if mode < 3 {
-        mode
-    } else {
-        let k = sym::u8_();
-        assume(k < 3);
-        k
-    };
-    match k {
-        0 => {
-            let ran = rayon::verif_run_pending();
-            assert!(ran, "ENGINE timed lock on a held mutex but no pool task is pending");
-            parking_lot::Timed::Acquire
-        }
-        1 => parking_lot::Timed::TimeOut,
-        _ => {
-            let ran = rayon::verif_run_pending();
-            assert!(ran, "ENGINE timed lock on a held mutex but no pool task is pending");
-            parking_lot::Timed::TimeOutHolderDone
-        }
-    }
+/// Contention is resolved inside the parking_lot shim: a blocked UI thread lets the pool task
+/// run; the outcomes of timed attempts on a held lock come from a per-instance sequence
+/// (base-3 digits: 0 acquired in time, 1 timed out, 2 timed out and the holder finishes before the
+/// caller's next instruction). The sequence is CONCRETE per harness instance: with symbolic
+/// outcomes the continuations differ in vector lengths / reference counts, CBMC merges them into
+/// symbolic sizes and does not finish (measured: > 10 min for one tick). The driver enumerates
+/// the sequences; CBMC executes the real code along each and decides the assertions and Kani's
+/// safety checks over the remaining symbolic data.
+fn install_hooks() {}
+fn set_timed(seq: u32) {
+    *parking_lot::VERIF_TIMED_SEQ.get() = seq;
 }
 
 // ---------------------------------------------------------------------------------------------
 // C20: active_injectors == live handles of the current stream
 // ---------------------------------------------------------------------------------------------
-pub fn injector_count<const STEPS: usize>(code: u32) {
+pub fn injector_count<const STEPS: usize>(code: u32, timed: u32) {
     install_hooks();
+    set_timed(timed);
     let mut n: Nucleo<u32> = Nucleo::new(Config::DEFAULT, notify_fn(), Some(1), 1);
     let mut handles: [Option<Injector<u32>>; 3] = [None, None, None];
     let mut gen = [0u8; 3];
@@ -74,8 +52,8 @@ pub fn injector_count<const STEPS: usize>(code: u32) {
     while step < STEPS {
         let op = (code % 6) as u8;
         code /= 6;
-        let k = sym::u8_() as usize;
-        assume(k < 3);
+        let k = (code % 3) as usize;
+        code /= 3;
         match op {
             0 => {
                 if handles[k].is_none() {
@@ -97,7 +75,7 @@ pub fn injector_count<const STEPS: usize>(code: u32) {
                 handles[k] = None;
             }
             3 => {
-                n.restart(sym::bool_());
+                n.restart(k % 2 == 1);
                 cur += 1;
             }
             4 => {
@@ -228,9 +206,9 @@ fn check_snapshot_base(n: &Nucleo<u32>, completed: u32, base: u32) {
 // ---------------------------------------------------------------------------------------------
 // C13: a tick that reports 'running' is followed by a notification
 // ---------------------------------------------------------------------------------------------
-pub fn wakeup<const ITEMS: usize>(timed: u8) {
+pub fn wakeup<const ITEMS: usize>(timed: u8, second_push: bool) {
     install_hooks();
-    unsafe { *std::ptr::addr_of_mut!(TIMED_MODE) = timed };
+    set_timed(timed as u32);
     let mut n: Nucleo<u32> = Nucleo::new(Config::DEFAULT, notify_fn(), Some(1), 1);
     let inj = n.injector();
     unsafe { *std::ptr::addr_of_mut!(USE_MASK) = false };
@@ -244,11 +222,21 @@ pub fn wakeup<const ITEMS: usize>(timed: u8) {
     }
     // first tick: any timeout behaviour (solver-chosen inside the timed lock)
     let c0 = notify_count();
+    let w0 = *parking_lot::VERIF_HOLDER_DONE.get();
     let st = tick_checked(&mut n, 10, ITEMS as u32, 100);
     if st.running {
         // the event loop now sleeps until notified: whatever is still pending completes
         let _ = rayon::verif_run_pending();
-        check!(notify_count() > c0, "C13 a tick that reports 'running' is followed by a notification once the background run has finished");
+        // Known finding D11 (see /verif/known_findings.json): if the background run finishes
+        // between the tick's timed lock attempt giving up and the tick re-arming the flag, nobody
+        // notifies. Exactly that window is reported as KNOWN-FINDING; a lost wake-up on any other
+        // schedule is a violation.
+        let window = *parking_lot::VERIF_HOLDER_DONE.get() > w0;
+        let notified = notify_count() > c0;
+        cover!(window && !notified, "KNOWN-FINDING D11 the run finishes between the failed timed lock attempt and the tick re-arming the notification flag: tick reports 'running' and no notification ever follows");
+        if !window {
+            check!(notified, "C13 a tick that reports 'running' is followed by a notification once the background run has finished");
+        }
         cover!(parking_lot::VERIF_TIMEOUTS.get().clone() > 0, "timed lock attempt failed");
     }
     cover!(st.running, "tick reports running");
@@ -257,16 +245,19 @@ pub fn wakeup<const ITEMS: usize>(timed: u8) {
     // a further item arrives while the finished run has not been collected yet: the next tick
     // both collects (changed) and starts another run (running) - and must be followed by a notify
     let mut total = ITEMS as u32;
-    if sym::bool_() {
+    if second_push {
         let idx = inj.push(100 + total, fill);
         check!(idx == total, "C08 pushes receive consecutive indices");
         total += 1;
     }
     let c1 = notify_count();
+    let w1 = *parking_lot::VERIF_HOLDER_DONE.get();
     let st2 = tick_checked(&mut n, 10, total, 100);
     if st2.running {
         let _ = rayon::verif_run_pending();
-        check!(notify_count() > c1, "C13 a tick that reports 'running' is followed by a notification once the background run has finished (second tick)");
+        if *parking_lot::VERIF_HOLDER_DONE.get() == w1 {
+            check!(notify_count() > c1, "C13 a tick that reports 'running' is followed by a notification once the background run has finished (second tick)");
+        }
     }
     cover!(st2.running && st2.changed, "tick that both collected results and started another run");
     let _ = rayon::verif_run_pending();
@@ -286,6 +277,7 @@ pub fn wakeup<const ITEMS: usize>(timed: u8) {
 // between reservation and publication, with the UI thread ticking meanwhile. Every such
 // schedule is a real schedule.
 // ---------------------------------------------------------------------------------------------
+static mut WRITER_RUNS: u32 = 0;
 struct SlowWriter {
     n: *mut Nucleo<u32>,
     first_idx: u32,
@@ -305,7 +297,14 @@ impl Iterator for SlowWriter {
         // UI thread activity while this writer sits between reservation and publication
         let n = unsafe { &mut *self.n };
         let _ = tick_checked(n, 10, 0, 100);
-        if sym::bool_() {
+        // does the background run complete (and the UI tick again) before this item is published?
+        let go = unsafe {
+            let r = &mut *std::ptr::addr_of_mut!(WRITER_RUNS);
+            let g = *r % 2 == 1;
+            *r /= 2;
+            g
+        };
+        if go {
             let _ = rayon::verif_run_pending();
             let _ = tick_checked(n, 10, 0, 100);
         }
@@ -320,8 +319,12 @@ impl ExactSizeIterator for SlowWriter {
     }
 }
 
-pub fn inflight_writer<const PRE: usize, const BATCH: usize>() {
+pub fn inflight_writer<const PRE: usize, const BATCH: usize>(timed: u32, runs: u32) {
     install_hooks();
+    set_timed(timed);
+    unsafe {
+        *std::ptr::addr_of_mut!(WRITER_RUNS) = runs;
+    }
     let mut n: Nucleo<u32> = Nucleo::new(Config::DEFAULT, notify_fn(), Some(1), 1);
     let inj = n.injector();
     unsafe {
@@ -354,8 +357,9 @@ pub fn inflight_writer<const PRE: usize, const BATCH: usize>() {
 // ---------------------------------------------------------------------------------------------
 // C12: restart isolates the new item stream from the old one
 // ---------------------------------------------------------------------------------------------
-pub fn restart_isolation<const OLD: usize, const NEW: usize>() {
+pub fn restart_isolation<const OLD: usize, const NEW: usize>(timed: u32, run_before_restart: bool, clear: bool) {
     install_hooks();
+    set_timed(timed);
     let mut n: Nucleo<u32> = Nucleo::new(Config::DEFAULT, notify_fn(), Some(1), 1);
     unsafe { *std::ptr::addr_of_mut!(USE_MASK) = false };
     let old = n.injector();
@@ -365,14 +369,13 @@ pub fn restart_isolation<const OLD: usize, const NEW: usize>() {
         k += 1;
     }
     let _ = tick_checked(&mut n, 10, OLD as u32, 100);
-    // the run over the old stream completes before the restart, or is still pending (solver's choice)
-    if sym::bool_() {
+    // the run over the old stream completes before the restart, or is still pending
+    if run_before_restart {
         let _ = rayon::verif_run_pending();
         let _ = tick_checked(&mut n, 10, OLD as u32, 100);
     }
     let before_count = n.snapshot().item_count();
     let before_len = n.snapshot().matches().len();
-    let clear = sym::bool_();
     n.restart(clear);
     if clear {
         check!(n.snapshot().item_count() == 0 && n.snapshot().matches().is_empty(), "C12 restart(true) empties the snapshot immediately");
@@ -428,3 +431,260 @@ pub fn restart_isolation<const OLD: usize, const NEW: usize>() {
 }
 
 include!(concat!(env!("NUCLEO_VERIF_GEN"), "/nucleo_proto.rs"));
+
+pub mod probes {
+    use super::*;
+    use crate::pattern::MultiPattern;
+    pub fn probe_clone_from() {
+        let p = MultiPattern::new(1);
+        let mut q = MultiPattern::new(1);
+        q.clone_from(&p);
+        check!(q.is_empty(), "C06 probe");
+        std::mem::forget((p, q));
+    }
+    pub fn probe_new() {
+        install_hooks();
+        let n: Nucleo<u32> = Nucleo::new(Config::DEFAULT, notify_fn(), Some(1), 1);
+        check!(n.active_injectors() == 0, "C06 probe");
+        std::mem::forget(n);
+    }
+    pub fn probe_tick() {
+        install_hooks();
+        let mut n: Nucleo<u32> = Nucleo::new(Config::DEFAULT, notify_fn(), Some(1), 1);
+        let st = n.tick(10);
+        check!(st.running, "C06 probe");
+        std::mem::forget(n);
+    }
+    pub fn probe_tick_run() {
+        install_hooks();
+        let mut n: Nucleo<u32> = Nucleo::new(Config::DEFAULT, notify_fn(), Some(1), 1);
+        let st = n.tick(10);
+        let _ = rayon::verif_run_pending();
+        check!(st.running, "C06 probe");
+        std::mem::forget(n);
+    }
+    pub fn probe_a() {
+        install_hooks();
+        let n: Nucleo<u32> = Nucleo::new(Config::DEFAULT, notify_fn(), Some(1), 1);
+        let inner = n.worker.lock_arc();
+        check!(!inner.running, "C06 probe");
+        std::mem::forget(inner);
+        std::mem::forget(n);
+    }
+    pub fn probe_b() {
+        install_hooks();
+        let n: Nucleo<u32> = Nucleo::new(Config::DEFAULT, notify_fn(), Some(1), 1);
+        let mut inner = n.worker.lock_arc();
+        inner.pattern.clone_from(&n.pattern);
+        check!(!inner.running, "C06 probe");
+        std::mem::forget(inner);
+        std::mem::forget(n);
+    }
+    pub fn probe_c() {
+        install_hooks();
+        let n: Nucleo<u32> = Nucleo::new(Config::DEFAULT, notify_fn(), Some(1), 1);
+        let mut inner = n.worker.lock_arc();
+        inner.items = n.items.clone();
+        check!(!inner.running, "C06 probe");
+        std::mem::forget(inner);
+        std::mem::forget(n);
+    }
+    pub fn probe_d() {
+        install_hooks();
+        let n: Nucleo<u32> = Nucleo::new(Config::DEFAULT, notify_fn(), Some(1), 1);
+        let mut inner = n.worker.lock_arc();
+        unsafe { inner.run(crate::pattern::Status::Unchanged, true) };
+        check!(inner.running, "C06 probe");
+        std::mem::forget(inner);
+        std::mem::forget(n);
+    }
+    pub fn probe_e() {
+        install_hooks();
+        let n: Nucleo<u32> = Nucleo::new(Config::DEFAULT, notify_fn(), Some(1), 1);
+        let mut inner = n.worker.lock();
+        inner.pattern.clone_from(&n.pattern);
+        check!(!inner.running, "C06 probe");
+        std::mem::forget(inner);
+        std::mem::forget(n);
+    }
+    pub fn probe_f() {
+        let (pool, mut w) = crate::worker::Worker::<u32>::new(Some(1), Config::DEFAULT, notify_fn(), 1);
+        w.items.push(100, fill);
+        *rayon::VERIF_CUR.get() = Some(0);
+        unsafe { w.run(crate::pattern::Status::Unchanged, true) };
+        check!(w.running && w.matches.len() == 1, "C06 probe");
+        std::mem::forget((pool, w));
+    }
+    pub fn probe_g() {
+        // a Worker moved into a Box: is it the move to the heap that loses the constants?
+        let (pool, w) = crate::worker::Worker::<u32>::new(Some(1), Config::DEFAULT, notify_fn(), 1);
+        let mut b = Box::new(w);
+        let p = crate::pattern::MultiPattern::new(1);
+        b.pattern.clone_from(&p);
+        check!(!b.running, "C06 probe");
+        std::mem::forget((pool, b, p));
+    }
+    pub fn probe_h() {
+        let (pool, mut w) = crate::worker::Worker::<u32>::new(Some(1), Config::DEFAULT, notify_fn(), 1);
+        let p = crate::pattern::MultiPattern::new(1);
+        w.pattern.clone_from(&p);
+        check!(!w.running, "C06 probe");
+        std::mem::forget((pool, w, p));
+    }
+    pub fn probe_i() {
+        // struct holding a MultiPattern next to a Vec with capacity
+        struct S { a: Vec<u32>, p: crate::pattern::MultiPattern, b: std::sync::Arc<u32> }
+        let mut s = S { a: Vec::with_capacity(64), p: crate::pattern::MultiPattern::new(1), b: std::sync::Arc::new(1) };
+        let p = crate::pattern::MultiPattern::new(1);
+        s.p.clone_from(&p);
+        check!(s.a.is_empty(), "C06 probe");
+        std::mem::forget((s, p));
+    }
+    pub fn probe_heapvec() {
+        struct Big { pad: [u64; 20], v: Vec<crate::Match>, pad2: [u64; 20] }
+        let mut b = Box::new(Big { pad: [1; 20], v: Vec::new(), pad2: [2; 20] });
+        b.v.extend((0..3u32).map(|i| crate::Match { score: i, idx: i }));
+        b.v.push(crate::Match { score: 9, idx: 9 });
+        check!(b.v.len() == 4 && b.v[3].idx == 9 && b.v[1].score == 1, "C06 probe heap vec");
+        std::mem::forget(b);
+    }
+    pub fn probe_d1() {
+        install_hooks();
+        let n: Nucleo<u32> = Nucleo::new(Config::DEFAULT, notify_fn(), Some(1), 1);
+        let inj = n.injector();
+        inj.push(100, fill);
+        let mut inner = n.worker.lock_arc();
+        *rayon::VERIF_CUR.get() = Some(0);
+        unsafe { inner.run(crate::pattern::Status::Unchanged, true) };
+        check!(inner.running && inner.matches.len() == 1, "C06 probe d1");
+        std::mem::forget(inner);
+        std::mem::forget((n, inj));
+    }
+    pub fn probe_d2() {
+        // same, Worker on the stack
+        let (pool, mut w) = crate::worker::Worker::<u32>::new(Some(1), Config::DEFAULT, notify_fn(), 1);
+        w.items.push(100, fill);
+        *rayon::VERIF_CUR.get() = Some(0);
+        unsafe { w.run(crate::pattern::Status::Unchanged, true) };
+        check!(w.running && w.matches.len() == 1, "C06 probe d2");
+        std::mem::forget((pool, w));
+    }
+    pub fn probe_d3() {
+        install_hooks();
+        let n: Nucleo<u32> = Nucleo::new(Config::DEFAULT, notify_fn(), Some(1), 1);
+        let inj = n.injector();
+        inj.push(100, fill);
+        let mut inner = n.worker.lock();
+        *rayon::VERIF_CUR.get() = Some(0);
+        unsafe { inner.run(crate::pattern::Status::Unchanged, true) };
+        check!(inner.running && inner.matches.len() == 1, "C06 probe d3");
+        std::mem::forget(inner);
+        std::mem::forget((n, inj));
+    }
+    pub fn probe_d4() {
+        // Worker boxed (heap), no mutex
+        let (pool, w) = crate::worker::Worker::<u32>::new(Some(1), Config::DEFAULT, notify_fn(), 1);
+        let mut w = Box::new(w);
+        w.items.push(100, fill);
+        *rayon::VERIF_CUR.get() = Some(0);
+        unsafe { w.run(crate::pattern::Status::Unchanged, true) };
+        check!(w.running && w.matches.len() == 1, "C06 probe d4");
+        std::mem::forget((pool, w));
+    }
+    pub fn probe_d5() {
+        let (pool, w) = crate::worker::Worker::<u32>::new(Some(1), Config::DEFAULT, notify_fn(), 1);
+        let items = w.items.clone();
+        let m = Arc::new(parking_lot::Mutex::new(w));
+        items.push(100, fill);
+        let mut inner = m.lock();
+        *rayon::VERIF_CUR.get() = Some(0);
+        unsafe { inner.run(crate::pattern::Status::Unchanged, true) };
+        check!(inner.running && inner.matches.len() == 1, "C06 probe d5");
+        std::mem::forget(inner);
+        std::mem::forget((pool, m, items));
+    }
+    pub fn probe_d7() {
+        let big: Vec<crate::Match> = Vec::with_capacity(2 * 1024);
+        let (pool, w) = crate::worker::Worker::<u32>::new(Some(1), Config::DEFAULT, notify_fn(), 1);
+        let items = w.items.clone();
+        let m = Arc::new(parking_lot::Mutex::new(w));
+        items.push(100, fill);
+        let mut inner = m.lock();
+        *rayon::VERIF_CUR.get() = Some(0);
+        unsafe { inner.run(crate::pattern::Status::Unchanged, true) };
+        check!(inner.running && inner.matches.len() == 1, "C06 probe d7");
+        std::mem::forget(inner);
+        std::mem::forget((pool, m, items, big));
+    }
+    pub fn probe_d8() {
+        let n: Nucleo<u32> = Nucleo::new(Config::DEFAULT, notify_fn(), Some(1), 1);
+        n.items.push(100, fill);
+        let mut inner = n.worker.lock();
+        *rayon::VERIF_CUR.get() = Some(0);
+        unsafe { inner.run(crate::pattern::Status::Unchanged, false) };
+        check!(inner.running && inner.matches.len() == 1, "C06 probe d8");
+        std::mem::forget(inner);
+        std::mem::forget(n);
+    }
+    pub fn probe_d9() {
+        install_hooks();
+        let n: Nucleo<u32> = Nucleo::new(Config::DEFAULT, Arc::new(|| ()), Some(1), 1);
+        let inj = n.injector();
+        inj.push(100, fill);
+        let mut inner = n.worker.lock();
+        *rayon::VERIF_CUR.get() = Some(0);
+        unsafe { inner.run(crate::pattern::Status::Unchanged, true) };
+        check!(inner.running && inner.matches.len() == 1, "C06 probe d9");
+        std::mem::forget(inner);
+        std::mem::forget((n, inj));
+    }
+    pub fn probe_d10() {
+        // like d3 but without install_hooks
+        let n: Nucleo<u32> = Nucleo::new(Config::DEFAULT, notify_fn(), Some(1), 1);
+        let inj = n.injector();
+        inj.push(100, fill);
+        let mut inner = n.worker.lock();
+        *rayon::VERIF_CUR.get() = Some(0);
+        unsafe { inner.run(crate::pattern::Status::Unchanged, true) };
+        check!(inner.running && inner.matches.len() == 1, "C06 probe d10");
+        std::mem::forget(inner);
+        std::mem::forget((n, inj));
+    }
+    pub fn probe_d6() {
+        // Nucleo::new, but the run is executed on the worker without taking the lock through the shim
+        let n: Nucleo<u32> = Nucleo::new(Config::DEFAULT, notify_fn(), Some(1), 1);
+        n.items.push(100, fill);
+        let mut inner = n.worker.lock();
+        check!(inner.matches.len() == 0, "C06 probe d6 pre");
+        inner.matches.push(crate::Match { score: 1, idx: 0 });
+        check!(inner.matches.len() == 1, "C06 probe d6");
+        std::mem::forget(inner);
+        std::mem::forget(n);
+    }
+    harnesses_nostub! {
+        probe_d5_h [8] => probe_d5();
+        probe_d9_h [8] => probe_d9();
+        probe_d10_h [8] => probe_d10();
+        probe_d8_h [8] => probe_d8();
+        probe_d7_h [8] => probe_d7();
+        probe_d6_h [8] => probe_d6();
+        probe_d3_h [8] => probe_d3();
+        probe_d4_h [8] => probe_d4();
+        probe_d1_h [8] => probe_d1();
+        probe_d2_h [8] => probe_d2();
+        probe_heapvec_h [8] => probe_heapvec();
+        probe_h_h [8] => probe_h();
+        probe_i_h [8] => probe_i();
+        probe_e_h [8] => probe_e();
+        probe_f_h [8] => probe_f();
+        probe_g_h [8] => probe_g();
+        probe_a_h [8] => probe_a();
+        probe_b_h [8] => probe_b();
+        probe_c_h [8] => probe_c();
+        probe_d_h [8] => probe_d();
+        probe_clone_from_h [8] => probe_clone_from();
+        probe_new_h [8] => probe_new();
+        probe_tick_h [8] => probe_tick();
+        probe_tick_run_h [8] => probe_tick_run();
+    }
+}
